@@ -226,8 +226,16 @@ def bg_correct(raw, bg, df=None):
     bg = bg.transpose(*raw.dims)
     df = df.transpose(*raw.dims)
 
-    if not (raw.shape == bg.shape == df.shape and list(get_spacing(raw)) == list(get_spacing(bg)) == list(get_spacing(df))):
+    # (the pixel size of a crop is a difference of coordinates: equal up to
+    # rounding, whatever the unit of length)
+    same_spacing = (np.allclose(get_spacing(raw), get_spacing(bg), atol=0)
+                    and np.allclose(get_spacing(raw), get_spacing(df), atol=0))
+    if not (raw.shape == bg.shape == df.shape and same_spacing):
         raise BadImage("raw and background images must have the same shape and spacing")
+    for dim in raw.dims:
+        if dim not in ('x', 'y', 'z') and not (
+                set(raw[dim].values) == set(bg[dim].values) == set(df[dim].values)):
+            raise BadImage("raw and background images must have the same " + dim + " labels")
 
     # pixel by pixel: the images may sit on different positions (a cropped
     # hologram, another z), and arithmetic between labelled arrays would keep
